@@ -111,7 +111,9 @@ BAcks ==
     \cup {EvB([M0 EXCEPT !.t = "PINGRESP"])}
 BConnacks(st) ==
     \* conforming broker: CONNACK only answers a CONNECT
-    IF st.cx.on /\ st.cx.sent THEN {EvB([M0 EXCEPT !.t = "CONNACK", !.rc = rc]) : rc \in {0, 5}} ELSE {}
+    IF st.cx.on /\ st.cx.sent
+    THEN {EvB([M0 EXCEPT !.t = "CONNACK", !.rc = rc]) : rc \in (IF Family = "connect" THEN 0..5 ELSE {0, 5})}
+    ELSE {}
 Pings == {EvC([P0 EXCEPT !.t = "PINGREQ", !.cid = "c1"])}
 
 Times(st) ==
